@@ -186,10 +186,11 @@ def generate(rng, idx, tier, variant):
     if variant == 'pairs':
         return generate_pairs(rng, idx, tier)
     fam = gen_family(rng, variant)
+    one_sub = fam == 'linker' and rng.random() < 0.35  # a linker over a single submodel can sit on any span type
     n = rng.randint(1, 12 if tier == 'thorough' else 8)
     if rng.random() < 0.012 and variant in ('container', 'labels'):
         n = 300  # well past any small-number special case (e.g. CPython's cached small integers)
-    stype = rng.choice(LINKER_SPANS if fam == 'linker' else spans.TYPES)
+    stype = rng.choice(LINKER_SPANS if (fam == 'linker' and not one_sub) else spans.TYPES)
     spec = {'family': fam, 'span': {'type': stype, 'n': n, 'origin': rng.choice([0, 1, 3, 7]), 'step': rng.choice([2, 2, 3])}, 'strict': rng.random() < 0.25}
     g = {'base': 0, 'names': {0: []}, 'np': 1}
     ELEMS = {'float': 'float', 'int': 'int', 'bool': 'bool', 'str': 'str'}
@@ -201,6 +202,8 @@ def generate(rng, idx, tier, variant):
         ms['init'] = {nm: [rng.choice(S.DYADS) for _ in range(n)] for nm in ms['endo'] + ms['exo']}
         spec['model'] = ms
         g['names'][0] = [(nm, 'float') for nm in ms['endo'] + ms['exo']]
+        if 'tracer' in fam and rng.random() < 0.5:
+            spec['trace_variables'] = list(ms['endo'] + ms['exo'])  # a class-level list of traced names
         if 'alias' in fam:
             names = ms['endo'] + ms['exo']
             al = {}
@@ -221,9 +224,11 @@ def generate(rng, idx, tier, variant):
         g['names'][0] = [(nm, 'float') for nm in prog['names']]
     if fam in ('scripted', 'parser', 'alias', 'tracer', 'alias+tracer') and variant == 'copies' and rng.random() < 0.3:
         spec['dtype'] = rng.choice(['int', 'float32', 'bool'])  # the model's own dtype= argument
+    if fam in ('scripted', 'linker') and variant in ('container', 'copies') and rng.random() < 0.2:
+        spec['dtype'] = rng.choice(['int', 'float32', 'bool'])
     if fam == 'linker':
         subs = {}
-        for sid in ['A', 'B', 'C'][: rng.randint(0, 3)]:
+        for sid in ['A', 'B', 'C'][: (1 if one_sub else rng.randint(0, 3))]:
             ms = S.gen_spec(rng, 'solver', tier)
             ms['lags'] = min(ms['lags'], max(0, (n - 1) // 2))
             ms['leads'] = min(ms['leads'], max(0, n - 1 - ms['lags']))
@@ -248,7 +253,7 @@ def generate(rng, idx, tier, variant):
         'container': {'add_variable': 3, 'setattr': 5, 'setitem': 3, 'setitem_label': 2, 'setitem_slice': 2, 'set_pos': 2, 'replace_values': 2, 'set_values': 2, 'add_attribute': 1, 'set_attr_plain': 2, 'set_strict': 1, 'get': 2, 'spawn': 0.5, 'reindex': 0.3},
         'labels': {'add_variable': 1, 'setattr': 1, 'setitem_label': 6, 'setitem_slice': 6, 'set_pos': 2, 'get': 4, 'setitem': 1, 'reindex': 1.5, 'reuse_key': 3, 'spawn': 0.5},
         'copies': {'mutate_any': 5, 'add_variable': 2, 'setattr': 3, 'setitem_label': 1, 'setitem_slice': 1, 'set_pos': 3, 'replace_values': 1, 'set_values': 1, 'add_attribute': 1, 'set_attr_plain': 2, 'set_strict': 1, 'spawn': 5, 'mutate_list': 5, 'solve': 2, 'sub_poke': 2, 'reindex': 0.5},
-        'reindex': {'add_attribute': 2, 'add_variable': 3, 'setattr': 3, 'set_pos': 2, 'setitem_slice': 1, 'get': 1, 'reuse_key': 1, 'reindex': 6, 'solve': 2, 'set_strict': 1, 'spawn': 0.5},
+        'reindex': {'mutate_any': 2, 'add_attribute': 2, 'add_variable': 3, 'setattr': 3, 'set_pos': 2, 'setitem_slice': 1, 'get': 1, 'reuse_key': 1, 'reindex': 6, 'solve': 2, 'set_strict': 1, 'spawn': 0.5},
     }[variant]
     kinds, weights = zip(*sorted(W.items()))
     for _ in range(n_ops):
@@ -329,7 +334,7 @@ def generate(rng, idx, tier, variant):
             g['base'] += 7
             r = rng.random()
             if r < 0.45:
-                ops.append({'op': 'set_values', 'obj': p, 'value': {'k': 'matrix', 'shape': 'ok', 'base': g['base']}})
+                ops.append({'op': 'set_values', 'obj': p, 'value': {'k': 'matrix', 'shape': 'ok', 'base': g['base'] if variant != 'copies' else 500}, 'pool': (rng.randrange(2) if variant == 'copies' and rng.random() < 0.6 else None)})
             elif r < 0.65:
                 ops.append({'op': 'set_values', 'obj': p, 'value': {'k': 'matrix', 'shape': rng.choice(['rows+1', 'cols+1', 'flat', 'transposed']), 'base': g['base']}})
             else:
@@ -344,7 +349,9 @@ def generate(rng, idx, tier, variant):
                 nm = rng.choice([nm + 'x', nm.lower() + '_', nm[:-1] + 'Q' if len(nm) > 1 else nm + 'q'])  # near miss of a variable
             elif r < 0.48 and names:
                 nm = '_' + pick()[0]  # the storage key of a variable: still not an attribute the user may create
-            elif r < 0.58:
+            elif r < 0.53:
+                nm = rng.choice(['engine', 'lags', 'leads'])  # attributes every model already has: updating them keeps working
+            elif r < 0.63:
                 nm = rng.choice(['eval', 'copy', 'reindex', 'add_variable', 'to_dataframe', 'replace_values', 'solve', 'solve_t_before', 'LAGS', 'NAMES', 'CODE', 'get_closest_match'])
             else:
                 nm = rng.choice(['note', 'meta', 'tag', 'zzz']) + str(rng.randrange(3))
@@ -473,6 +480,8 @@ def build_first(fsic, spec):
             attrs['ALIASES'] = dict(map(tuple, spec.get('aliases', [])))
         if 'tracer' in fam:
             bases.append(TracerMixin)
+            if spec.get('trace_variables'):
+                attrs['TRACE_VARIABLES'] = list(spec['trace_variables'])
         if fam == 'pandasmixin':
             bases.append(PandasIndexFeaturesMixin)
         cls = type('Mixed', tuple(bases) + (base,), attrs) if bases else base
@@ -488,8 +497,8 @@ def build_first(fsic, spec):
             subs[sid] = probes.new_scripted_instance(cls, spans.make_span(spec['span']), ms['init'])
         L = type('Linker', (fsic.BaseLinker,), {'ENDOGENOUS': ['L0'], 'EXOGENOUS': ['LX'], 'NAMES': ['L0', 'LX'], 'CHECK': ['L0']})
         if subs:
-            return L(subs), span
-        return L(subs, span=span), span
+            return L(subs, **dtk), span
+        return L(subs, span=span, **dtk), span
     raise ValueError(fam)
 
 
@@ -616,6 +625,9 @@ def others_unchanged(parties, target_i, before, class_before, ctx, op_kind, clas
         now = O.obs(pj.obj)
         if now != before[j]:
             ctx.check('C11', f'shared-state/{op_kind}/{_rel(parties, target_i, j)}', False, {'mutated-party': target_i, 'changed-party': j, 'paths': O.diff(before[j], now)[:5]})
+            if target_i is not None and 'reindexed' in (parties[target_i].origin, pj.origin):
+                # "the original object ... shares nothing with the result" of reindex()
+                ctx.check('C12', 'result-shares-state-with-its-source/' + op_kind.split(':')[0], False, {'paths': O.diff(before[j], now)[:5]})
         else:
             ctx.check('C11', 'independent', True)
     for cname, cls in classes.items():
@@ -739,6 +751,11 @@ def execute(schedule, ctx):
     labels0 = spans.elements(span0)
     _st = spec['span'].get('step', 2) if spec['span']['type'] == 'range_step' else 1
     universe_spec = dict(spec['span'], n=spec['span']['n'] + 6, origin=spec['span'].get('origin', 0) - 3 * _st) if spec['span']['type'] not in ('list_mixed',) else None
+    if spec.get('dtype') and 'names' in x0.__dict__:
+        want_dt = np.dtype({'int': int, 'float32': np.float32, 'bool': bool}[spec['dtype']])
+        wrong = [nm for nm in type(x0).NAMES if x0.__dict__['_' + nm].dtype != want_dt]
+        ctx.probe('constructed-with-dtype:' + spec['dtype'])
+        ctx.check('C09', 'construction/variables-have-the-dtype-asked-for', not wrong and x0.__dict__.get('dtype') is not None, {'wrong': wrong, 'dtype': spec['dtype'], 'family': spec['family']})
     P0 = Party(x0, labels0, spec['span'], spec['family'])
     P0.origin = 'original'
     parties = [P0]
@@ -914,7 +931,7 @@ def execute(schedule, ctx):
             elif nm in party.ref:
                 sty = party.span_spec['type'] if party.span_spec else 'custom'
                 if op['pos'] == 'absent':
-                    lab = absent(party, ctx.step % 3)
+                    lab = absent(party, ctx.step % 4)
                     e = attempt(lambda: x.__setitem__((nm, lab), v))
                     ctx.probe(f'label-absent:{sty}')
                     ctx.check('C10', f'label/absent-must-raise-KeyError/span={sty}', isinstance(e, KeyError), {'exc': type(e).__name__ if e else None, 'label': repr(lab)})
@@ -940,8 +957,8 @@ def execute(schedule, ctx):
                     a = n - 1
                 if isinstance(b, int) and b >= n:
                     b = n - 1
-                la = None if a is None else absent(party, ctx.step % 3) if a == 'absent' else label_at(party, a, op.get('fa', 0))
-                lb = None if b is None else absent(party, (ctx.step + 1) % 3) if b == 'absent' else label_at(party, b, op.get('fb', 0))
+                la = None if a is None else absent(party, ctx.step % 4) if a == 'absent' else label_at(party, a, op.get('fa', 0))
+                lb = None if b is None else absent(party, (ctx.step + 1) % 4) if b == 'absent' else label_at(party, b, op.get('fb', 0))
                 key = (nm, slice(la, lb, step))
                 if a == 'absent' or b == 'absent':
                     e = attempt(lambda: x.__setitem__(key, v))
@@ -1022,6 +1039,14 @@ def execute(schedule, ctx):
                 rows, cols = len(names), n
                 shp = {'ok': (rows, cols), 'rows+1': (rows + 1, cols), 'cols+1': (rows, cols + 1), 'flat': (rows * cols,), 'transposed': (cols, rows)}[vs['shape']]
                 mat = (np.arange(int(np.prod(shp)), dtype=float) + vs['base']).reshape(shp)
+                if vs['shape'] == 'ok' and op.get('pool') is not None:
+                    # the caller assigns the very same 2-D array to several objects
+                    key = ('M', op['pool'], rows, cols)
+                    if key not in operand_pool:
+                        operand_pool[key] = mat
+                        operand_copy[key] = mat.copy()
+                    mat = operand_pool[key]
+                    ctx.probe('caller-matrix-reused')
                 try:
                     current_shape = np.array([party.ref[nm] for nm in names]).shape
                 except Exception:
@@ -1103,7 +1128,18 @@ def execute(schedule, ctx):
                     ctx.probe('strict-vs-class-attribute-name')
                 exists = nm in d['_attributes']
                 strict = bool(d['_strict'])
-                e = attempt(lambda: setattr(x, nm, op['v']))
+                newval = op['v']
+                if nm in ('lags', 'leads') and exists:
+                    newval = d[nm]  # re-assign the current value (the history should stay solvable)
+                elif nm == 'engine':
+                    newval = 'python' if exists else op['v']
+                if nm in ('engine', 'lags', 'leads') and not exists:
+                    outcome = 'skipped'
+                    ctx.outcome(kind, outcome)
+                    continue
+                if exists:
+                    ctx.probe('existing-attribute-updated' + ('-under-strict' if strict else ''))
+                e = attempt(lambda: setattr(x, nm, newval))
                 if strict and not exists:
                     ctx.probe('strict-blocks-new-attribute')
                     ok = isinstance(e, AttributeError)
@@ -1128,7 +1164,7 @@ def execute(schedule, ctx):
                 else:
                     ctx.check('C09', 'plain-attribute/assignable', e is None, {'name': nm, 'exc': type(e).__name__ if e else None})
                     if e is None:
-                        ctx.check('C09', 'plain-attribute/stored', d.get(nm) == op['v'], None)
+                        ctx.check('C09', 'plain-attribute/stored', d.get(nm) == newval, None)
                     outcome = 'ok' if e is None else 'raised'
 
         elif kind == 'set_strict':
@@ -1156,7 +1192,7 @@ def execute(schedule, ctx):
                 except Exception as e:
                     ctx.check('C10', f'slice-get/span={sty}/{shape}', False, {'exc': type(e).__name__, 'a': a, 'b': b, 'step': step})
                 read_paths(party, nm, ctx, [(min(op['pos'], n - 1), op.get('form', 0))])
-                lab = absent(party, ctx.step % 3)
+                lab = absent(party, ctx.step % 4)
                 e = attempt(lambda: x[nm, lab])
                 ctx.check('C10', f'label/absent-get-must-raise-KeyError/span={sty}', isinstance(e, KeyError), {'exc': type(e).__name__ if e else None})
                 ctx.check('C09', 'contains', (nm in x) is True and ('nosuchvar' in x) is False, None)
@@ -1548,10 +1584,11 @@ def do_reindex(fsic, parties, party, op, ctx, before_obs, universe_spec, spec):
     pandas_mixin = party.fam == 'pandasmixin'
     unknown = [k for k in fills if k not in d['index']]
     if pandas_mixin:
-        # the property covers the pandas-based extension with its default arguments only
-        fills, fv, strict_arg = {}, None, None
-        eff_strict = bool(d['_strict'])
-        unknown = []
+        # the property covers the pandas-based extension with its default (pandas) arguments: no fill value and no fills
+        # for variables; the strict keyword and an unknown fill name are still part of the common reindex contract
+        fills = {k: v for k, v in fills.items() if k == 'NOPE'}
+        fv = None
+        unknown = [k for k in fills if k not in d['names']]
     kw = dict(fills)
     if fv is not None:
         kw['fill_value'] = fv
